@@ -22,8 +22,10 @@ import (
 	"encoding/hex"
 	"errors"
 	"io"
+	"maps"
 	"net/http"
 	"net/url"
+	"slices"
 	"strings"
 	"time"
 
@@ -347,9 +349,10 @@ func (a *remoteAuthorizer) calculateCacheKey(sub *subject.Subject, values map[st
 	hash.Write(ttlBytes)
 	hash.Write(sub.Hash())
 
-	for k, v := range values {
+	// map iteration order is random: hash the values in the order of their names
+	for _, k := range slices.Sorted(maps.Keys(values)) {
 		hash.Write(stringx.ToBytes(k))
-		hash.Write(stringx.ToBytes(v))
+		hash.Write(stringx.ToBytes(values[k]))
 	}
 
 	return hex.EncodeToString(hash.Sum(nil))
